@@ -119,15 +119,29 @@ RecBytes(num, p)     == TagBytes(num, 2) \o LenPrefixed(p)
 RecGroup(num, body)  == TagBytes(num, 3) \o body \o TagBytes(num, 4)
 
 (***************************************************************************)
-(* The Skip machine: what runtime.Skip does, one loop iteration per        *)
-(* action.  State (idx, depth); idx is 0-based as in the code.             *)
-(* Deliberate deviations from protowire.ConsumeField, modelled as such:    *)
+(* The record skipper, runtime.Skip.                                        *)
+(*                                                                         *)
+(* Whatever Skip accepts is stored VERBATIM as unknown fields, and          *)
+(* protobuf-go re-parses unknown fields later (proto.Equal, protojson, the *)
+(* reflection-based marshaller) assuming valid wire data; it panics on     *)
+(* anything else.  The specification is therefore STRICT: Skip accepts     *)
+(* exactly the buffers that start with a well-formed record of the total   *)
+(* parser ParseAt (= protowire.ConsumeField) and returns its length.       *)
+(*                                                                         *)
+(* LaxSkipStep / LaxSkip below is the machine the code implemented before  *)
+(* "fix: runtime.Skip accepts only valid wire data" -- one loop iteration  *)
+(* per step, state (idx, depth), with these deviations from the total      *)
+(* parser:                                                                 *)
 (*  - group numbers are not matched (depth counting only);                 *)
-(*  - fixed-width payloads are not bound-checked here (idx may pass the    *)
-(*    end; the generated caller checks idx + skippy > l);                  *)
-(*  - varint values are scanned, not decoded (no 10th-byte range check).   *)
+(*  - fixed-width payloads are not bound-checked (idx may pass the end);    *)
+(*  - varints are scanned, not decoded (no 10th-byte range check), tags    *)
+(*    are not validated (number 0, numbers > 2^29-1).                      *)
+(* It is kept as a NAMED DEVIATION: MC_Parse shows (VERIF_LAX = "1") that  *)
+(* the lax machine violates SkipSound, i.e. that the invariant is not      *)
+(* vacuous and that the accepted-but-invalid unknown bytes found in the    *)
+(* code are behaviours of that machine.                                    *)
 (***************************************************************************)
-SkipStep(b, idx, depth) ==
+LaxSkipStep(b, idx, depth) ==
     \* returns [done, err, idx, depth]
     LET i  == idx + 1
         tl == VarLenAt(b, i)
@@ -152,14 +166,22 @@ SkipStep(b, idx, depth) ==
                  [] OTHER -> [done |-> TRUE, err |-> "wiretype", idx |-> 0, depth |-> depth]
 
 \* run the machine to completion: result [err, n]
-RECURSIVE SkipRun(_, _, _)
-SkipRun(b, idx, depth) ==
+RECURSIVE LaxSkipRun(_, _, _)
+LaxSkipRun(b, idx, depth) ==
     IF idx >= Len(b) THEN [err |-> "eof", n |-> 0]
-    ELSE LET s == SkipStep(b, idx, depth)
+    ELSE LET s == LaxSkipStep(b, idx, depth)
          IN IF s.err # "" THEN [err |-> s.err, n |-> 0]
             ELSE IF s.done THEN [err |-> "", n |-> s.idx]
-            ELSE SkipRun(b, s.idx, s.depth)
+            ELSE LaxSkipRun(b, s.idx, s.depth)
 
-Skip(b) == SkipRun(b, 0, 0)
+LaxSkip(b) == LaxSkipRun(b, 0, 0)
+
+\* the strict skipper: the first record of the total parser, or its error class
+StrictSkip(b) ==
+    IF b = <<>> THEN [err |-> "eof", n |-> 0]
+    ELSE LET r == ParseAt(b, 1, MaxGroupDepth)
+         IN IF ~r.ok THEN [err |-> r.err, n |-> 0]
+            ELSE IF r.wt = 4 THEN [err |-> "endgroup", n |-> 0]
+            ELSE [err |-> "", n |-> r.e - 1]
 
 =============================================================================
